@@ -21,14 +21,21 @@ LEVEL_NOTE_COMMON = (
 
 CHECKS = {
     "C18": dict(
-        text="Theorems over inventories of any length (lru_order, deleted_is_prefix, limits_hold_after, minimal, "
-        "none_means_no_limit, satisfied_evicts_nothing) about the Lean model of _get_items_to_delete; the model is "
-        "compared with the real Memory.reduce_size on on-disk inventories every run, and a tie-tolerant oracle judges "
-        "the implementation directly.",
-        note="modelled not verified: directory inventory (os.walk/getatime/getsize), rmtree, the deadline now-age_limit "
-        "(an input of the model), float mantissas of memstr_to_bytes.",
-        technique="Lean 4 proof (induction over the eviction loop) + differential correspondence with reduce_size",
-        ref="6/C18",
+        text="Selection: lru_order, deleted_is_prefix, limits_hold_after, minimal, none_means_no_limit, satisfied_evicts_nothing over "
+        "inventories of any length (model of _get_items_to_delete). Inventory: get_items_one_per_entry, get_items_size_is_sum, "
+        "get_items_skips_unreadable over a directory-tree model of FileSystemStoreBackend.get_items (os.walk order, prefix regex, "
+        "output.pkl atime with fallback, unreadable entries skipped). Deletion and end to end: enforce_attempts_every_selected (every "
+        "fault pattern of clear_location), reduce_size_limits_hold, reduce_size_evicts_minimal_lru_prefix (Separated trees), "
+        "no_limits_no_change; memstr_exact / memstr_rejects_* for disk.memstr_to_bytes (exact rationals, truncation); F47 witnesses "
+        "(nested_hash_dir / hash_named_root counterexamples). The harness builds stores of 2-3 cached functions with equal arguments, "
+        "prefix-named and stray directories, reads the inventory independently, injects OSError(ESTALE) into clear_location through a "
+        "registered backend subclass, and compares get_items, the deleted set and the size-string values with the model; a "
+        "tie-tolerant oracle judges the implementation directly.",
+        note="modelled not verified: os.walk/getatime/getsize (the tree is read independently by the harness and handed to the model), "
+        "rmtree, the deadline now-age_limit (an input of the model), IEEE rounding of float() in memstr_to_bytes (exact inside the digit "
+        "budget, verified by correspondence), negative age_limit; F47 (prefix regex takes non-entry directories for entries) known.",
+        technique="Lean 4 proof (induction over the eviction loop and the directory tree) + differential correspondence with reduce_size / get_items under fault injection",
+        ref="6/C18, 14.3",
     ),
 }
 
@@ -90,8 +97,10 @@ CHECKS["C01"] = dict(
     "for every schedule, every task count, every scripted batch size, incl. late completions of earlier calls), "
     "return_correct_unordered, no_hang, stale_callback_noop, auto_batch_size_ge_one over the Lean model M1 of "
     "dispatch_one_batch/_dispatch/BatchCompletionCallBack/_start/_retrieve/__call__; the model's event log is compared for equality "
-    "with the real Parallel driven deterministically through a controllable backend; F11 witness proved.",
-    note="M1 granularity: completion callbacks are atomic and delivered at hook points of the caller (configure, compute_batch_size, sleep, consumer pauses) - exactly the schedules harness/ctl.py executes on the real Parallel on one thread (event-log equality). Finer interleavings (every bytecode of the caller as a pre-emption point via sys.monitoring, mid-callback observations of the wait predicate, close during a callback's pull, native threading/multiprocessing runs) are explored by the harness and judged by oracles only - exploration, not proof. Modelled not verified: backend contract (each batch executed at most once, callback at most once), RLock, islice, Queue/deque, pickling to workers.",
+    "with the real Parallel driven deterministically through a controllable backend; F11 witness proved. M1L (all interleavings of "
+    "any number of callback threads with the caller at lock-boundary granularity): mutex, dispatch_conservation, exactly_once, counters, "
+    "return_correct, no_premature_exit, no_deadlock, callback_progress, no_lost_wakeup, quiet_exit.",
+    note="M1 granularity: completion callbacks are atomic and delivered at hook points of the caller (configure, compute_batch_size, sleep, consumer pauses) - exactly the schedules harness/ctl.py executes on the real Parallel on one thread (event-log equality). Interleavings at lock-boundary / backend-call / unlocked-shared-access granularity with any number of concurrent callback threads are covered by PROOF on the second model M1L (lean/JoblibModel/ParallelLock.lean, theorems M1L.*; scope: one call on a fresh object, ordered modes, no timeout) and tied to the code by step-log equality of forced real-thread schedules (instrumented lock, controllable backend, descriptor-instrumented shared attributes; no line numbers). What remains exploration judged by oracles only is finer than a single attribute access (bytecode level: instr_sweep), mid-callback observations of the wait predicate, close during a callback's pull, native threading/multiprocessing runs, and at M1L granularity: timeouts, generator_unordered, call sequences; termination under a fair drain schedule is proved only in part (no_deadlock, callback_progress, no_lost_wakeup, quiet_exit). Modelled not verified: backend contract (each batch executed at most once, callback at most once), RLock, islice, Queue/deque, pickling to workers.",
     technique="Lean 4 proof (invariant over the dispatch/completion/retrieval transition system) + event-log correspondence under a deterministic scheduler",
     ref="6/C01, 13.2",
 )
@@ -99,8 +108,10 @@ CHECKS["C04"] = dict(
     text="error_surfaces, failing_batch_aborts + ret_means_no_exception, iterator_error_is_raised, timeout_raises (ordered retrieval), "
     "call_terminates, clean_after_call/close/exhaustion, stale_callbacks_are_noops, next_call_is_fresh, second_call_correct over M1, "
     "for all schedules and call sequences; same correspondence as C01 with failing tasks, failing iterator steps, fake-clock "
-    "timeouts and fail/succeed/fail call sequences.",
-    note="M1 granularity: completion callbacks are atomic and delivered at hook points of the caller (configure, compute_batch_size, sleep, consumer pauses) - exactly the schedules harness/ctl.py executes on the real Parallel on one thread (event-log equality). Finer interleavings (every bytecode of the caller as a pre-emption point via sys.monitoring, mid-callback observations of the wait predicate, close during a callback's pull, native threading/multiprocessing runs) are explored by the harness and judged by oracles only - exploration, not proof. Modelled not verified: backend contract (each batch executed at most once, callback at most once), RLock, islice, Queue/deque, pickling to workers." + " Worker-side traceback capture is covered by native runs only.",
+    "timeouts and fail/succeed/fail call sequences. M1L (all interleavings at lock-boundary granularity): error_surfaces, "
+    "error_surfaces_partial, raise_is_legit, outcome_done, and error_surfaces_counterexample = F49 (the pre-fix _wait_retrieval lets a "
+    "late iterator error be swallowed; found by the M1L correspondence, fixed in /repo).",
+    note="M1 granularity: completion callbacks are atomic and delivered at hook points of the caller (configure, compute_batch_size, sleep, consumer pauses) - exactly the schedules harness/ctl.py executes on the real Parallel on one thread (event-log equality). Interleavings at lock-boundary / backend-call / unlocked-shared-access granularity with any number of concurrent callback threads are covered by PROOF on the second model M1L (lean/JoblibModel/ParallelLock.lean, theorems M1L.*; scope: one call on a fresh object, ordered modes, no timeout) and tied to the code by step-log equality of forced real-thread schedules (instrumented lock, controllable backend, descriptor-instrumented shared attributes; no line numbers). What remains exploration judged by oracles only is finer than a single attribute access (bytecode level: instr_sweep), mid-callback observations of the wait predicate, close during a callback's pull, native threading/multiprocessing runs, and at M1L granularity: timeouts, generator_unordered, call sequences; termination under a fair drain schedule is proved only in part (no_deadlock, callback_progress, no_lost_wakeup, quiet_exit). Modelled not verified: backend contract (each batch executed at most once, callback at most once), RLock, islice, Queue/deque, pickling to workers." + " Worker-side traceback capture is covered by native runs only.",
     technique="Lean 4 proof (invariants + clean-state re-establishment) + event-log correspondence under a deterministic scheduler",
     ref="6/C04, 13.2",
 )
@@ -108,8 +119,10 @@ CHECKS["C09"] = dict(
     text="no_pull_after_abort, all_is_eager, pulls_only_in_locked_region, size_invariant, lookahead_bound_state, parked_bound, "
     "lookahead_bound_partial (configuration-only when no batch completes during pre-dispatch), auto_batch_size_at_most_doubles, and "
     "the F18 counterexample, over M1; same correspondence as C01 plus look-ahead/in-flight/re-entrancy oracles and a native-thread "
-    "probe with an input iterator that detects a second thread entering it.",
-    note="M1 granularity: completion callbacks are atomic and delivered at hook points of the caller (configure, compute_batch_size, sleep, consumer pauses) - exactly the schedules harness/ctl.py executes on the real Parallel on one thread (event-log equality). Finer interleavings (every bytecode of the caller as a pre-emption point via sys.monitoring, mid-callback observations of the wait predicate, close during a callback's pull, native threading/multiprocessing runs) are explored by the harness and judged by oracles only - exploration, not proof. Modelled not verified: backend contract (each batch executed at most once, callback at most once), RLock, islice, Queue/deque, pickling to workers." + " The unrestricted look-ahead bound is false of the code (F18, known finding); F29 known.",
+    "probe with an input iterator that detects a second thread entering it. M1L (all interleavings at lock-boundary granularity): "
+    "mutex, lock_owner_iff, acquire_needs_free_lock, pulls_only_by_lock_owner (never from two threads at once), "
+    "no_pull_after_abort_observed.",
+    note="M1 granularity: completion callbacks are atomic and delivered at hook points of the caller (configure, compute_batch_size, sleep, consumer pauses) - exactly the schedules harness/ctl.py executes on the real Parallel on one thread (event-log equality). Interleavings at lock-boundary / backend-call / unlocked-shared-access granularity with any number of concurrent callback threads are covered by PROOF on the second model M1L (lean/JoblibModel/ParallelLock.lean, theorems M1L.*; scope: one call on a fresh object, ordered modes, no timeout) and tied to the code by step-log equality of forced real-thread schedules (instrumented lock, controllable backend, descriptor-instrumented shared attributes; no line numbers). What remains exploration judged by oracles only is finer than a single attribute access (bytecode level: instr_sweep), mid-callback observations of the wait predicate, close during a callback's pull, native threading/multiprocessing runs, and at M1L granularity: timeouts, generator_unordered, call sequences; termination under a fair drain schedule is proved only in part (no_deadlock, callback_progress, no_lost_wakeup, quiet_exit). Modelled not verified: backend contract (each batch executed at most once, callback at most once), RLock, islice, Queue/deque, pickling to workers." + " The unrestricted look-ahead bound is false of the code (F18, known finding); F29 known.",
     technique="Lean 4 proof (size invariants of the transition system) + event-log correspondence + re-entrancy probe",
     ref="6/C09, 13.2",
 )
@@ -179,13 +192,17 @@ CHECKS["C06"] = dict(
     ref="6/C06",
 )
 CHECKS["C12"] = dict(
-    text="value_from_own_version (every history of definitions, calls of live versions and fresh processes: a call returns what its own "
-    "version computes), unchanged_code_keeps_cache, reachable_inv over the FuncCode model (_FUNCTION_HASHES, the writer table of the "
-    "F10 repair, on-disk func_code.py comparison); F10 witnesses on the pre-fix model; histories run as generated programs in their "
-    "own interpreters (module-level, nested, __main__ functions; lambdas as out-of-domain controls).",
-    note="modelled not verified: inspect.getsource / get_func_code text extraction, weakref table lifetime; sessions are sequential.",
-    technique="Lean 4 proof (invariant over definition/call/process histories) + generated-program correspondence",
-    ref="6/C12",
+    text="value_from_own_version (every history of definitions, wrappers, calls of live versions, clears, faults and fresh processes over "
+    "ANY NUMBER OF CACHE LOCATIONS: a call returns what its own version computes; hypotheses NoDelete = F39, Canonical = F46), "
+    "unchanged_code_keeps_cache (per location), locations_independent, shortcut_implies_stored_code_is_own, reachable_inv over the "
+    "FuncCode model (process-global _FUNCTION_HASHES and _FUNC_CODE_WRITERS keyed by location, per-directory func_code.py + entries); "
+    "counterexamples for the pre-F10 / pre-F38 trees, for a writer key without the location and for one directory under two spellings "
+    "(F46), value_from_own_version_resolved for the candidate repair; three streams of generated multi-session programs (one location; "
+    "2-3 directories / several Memory objects; aliased spellings) run in their own interpreters and compared step by step.",
+    note="modelled not verified: inspect.getsource / get_func_code text extraction, weakref table lifetime; sessions are sequential; one "
+    "location string denoting two directories in one process (relative path + chdir) is not modelled; F39, F46 known findings.",
+    technique="Lean 4 proof (per-directory cell invariant + frame lemmas over definition/call/process histories) + generated-program correspondence",
+    ref="6/C12, 14.3",
 )
 CHECKS["C05"] = dict(
     text="final_name_complete (every prefix, torn or not, of every workload: output.pkl and metadata.json hold complete content), "
